@@ -7,7 +7,8 @@ import re
 from ..runner import Spec, Case
 from .. import core
 
-KINDS = ('A', 'L', 'T', 'AS', 'LS')
+KINDS = ('A', 'L', 'T', 'AS', 'LS', 'A12', 'A5')
+ARRS = ('A', 'AS', 'A12', 'A5')
 
 
 class Shadow:
@@ -29,6 +30,7 @@ class Gen:
             return r.randrange(0, 6) * 256 + r.randrange(0, 256)
         if self.valmode == 'wide':
             if kind in ('AS', 'LS'): return r.randrange(0, 9999999)
+            if kind == 'A5': return r.choice([r.randrange(-50, 50), r.randrange(-8388608, 8388608), r.randrange(-70000, 70000)])
             return r.choice([r.randrange(-50, 50), r.randrange(-10**11, 10**11), r.randrange(-70000, 70000)])
         return r.randrange(0, 1000)
 
@@ -88,7 +90,7 @@ class Gen:
         if i is None: i = self.idx(n)
         self.lines.append(f'pushat {slot} {self.tok(s.kind, e)} {i}')
         if dup: return
-        if s.kind in ('A', 'AS'):
+        if s.kind in ARRS:
             k = i if 0 <= i <= n else (n + 1 + i if i < 0 and -(n + 1) <= i else None)
         elif s.kind in ('L', 'LS') and i == 0: k = 0
         else: k = self.norm(n, i)
@@ -136,6 +138,7 @@ class Gen:
         if dst == src: return False
         if d == 'T': return s == 'T'
         if d in ('AS', 'LS'): return s in ('AS', 'LS')
+        if d in ('A12', 'A5'): return s == d
         return s in ('A', 'L') or (concat and s == 'T')
 
     def two(self, cmd, dst, src):
@@ -268,7 +271,7 @@ def sort_inputs(rng, n):
     return shapes
 
 
-def sort_cases(rng, sizes, kinds=('A', 'T', 'AS')):
+def sort_cases(rng, sizes, kinds=('A', 'T', 'AS', 'A12', 'A12', 'A5')):
     g = Gen(rng)
     for n in sizes:
         for keys in sort_inputs(rng, n):
@@ -338,10 +341,12 @@ class C04(Spec):
                   'rem deletes the first equal element. The model is compared with the real containers after every operation of thousands of '
                   'generated histories (all index values, every growth and shrink step, duplicates, adversarial sort inputs).')
     level_note = ('Trusted: Lean kernel; the hand-written model lean/Cello/Seq.lean + Sort.lean is tied to the C code by testing only (white-box '
-                  'differential runs), not by proof; element types in the correspondence are Int and String, heap Tuples of Int objects. Not covered: '
+                  'differential runs), not by proof; element types in the correspondence are Int, String, a 12-byte and a 5-byte record type, heap Tuples of Int objects. Not covered: '
                   'aliased arguments (concat/assign of a container with itself: known findings, modelled and refuted), stack Tuples, Terminal stored as an element, lengths >= 2^63, '
                   'allocation failure.')
-    rule = ('op files over 16 container slots of kinds Array<Int>, List<Int>, heap Tuple of Int objects, Array<String>, List<String>: '
+    rule = ('op files over 16 container slots of kinds Array<Int>, List<Int>, heap Tuple of Int objects, Array<String>, List<String>, Array<Rec12>, Array<Rec5> '
+            '(file-scope record types of 12 and 5 bytes with their own Cmp and no Swap/Assign instance: default byte-wise swap and assign, rounded Array stride; '
+            'each value is encoded redundantly in the whole record so that a record assembled from two elements is detected): '
             '(a) random histories of all operations (indices uniform in -len..len-1 with 12% out of range, values from a 10-value domain / key*256+tag / wide), '
             '(b) growth sweeps push^n pop^n, front insertion and removal (every Reserve_More / Reserve_Less step up to n), '
             '(c) every index -len-2..len+2 for every length 0..L for push_at/pop_at/get/set and every kind, '
@@ -371,7 +376,7 @@ class C04(Spec):
         nrand = (150 if quick else 2500) * boost
         for i in range(nrand):
             mode = rng.choice(['small', 'small', 'keytag', 'wide'])
-            kinds = rng.choice([['A'], ['L'], ['T'], ['A', 'L'], ['A', 'L', 'T'], ['AS', 'LS'], list(KINDS)])
+            kinds = rng.choice([['A'], ['L'], ['T'], ['A', 'L'], ['A', 'L', 'T'], ['AS', 'LS'], ['A12'], ['A5'], ['A12', 'A5'], list(KINDS)])
             cs.append(Case(f'rand{i}', random_history(rng, 400 if quick else 500, kinds, mode, maxlen=rng.choice([12, 40, 90]))))
         # (b) growth sweeps
         for kind in KINDS:
